@@ -51,6 +51,10 @@ SIGS = {
     'len': [],
     'contains': ['int'],
     'shutdown': [],
+    'dump': ['int', 'roots', 'lint', 'lint'],
+    'load': ['int', 'bool'],
+    'dump_manager': ['int', 'lint'],
+    'load_manager': ['int'],
     'to_nx': ['lint'],
     'to_dot': ['olint'],
     'support': ['int'],
@@ -110,6 +114,12 @@ def _conv(kind, a):
     if kind[0] == 'o':
         return None if a == 'none' else _conv(kind[1:], a)
     if kind == 'lint':
+        return [int(x) for x in a]
+    if kind == 'roots':
+        if a == 'none':
+            return None
+        if a and isinstance(a[0], tuple):
+            return {int(k): int(v) for _, k, v in a}
         return [int(x) for x in a]
     if kind == 'dnn':
         return {int(k): int(v) for _, k, v in a}
@@ -173,6 +183,12 @@ class Session:
 
     def op(self, m, name, *args):
         tape, res, raw = self.impl.run(m, name, *args)
+        if isinstance(raw, _impl.Extra):
+            args = tuple(args) + tuple(raw.extra)
+            raw = raw.value
+        elif name in ('dump', 'dump_manager') and not res.startswith('ok:'):
+            # rejected before anything was written: the oracles are unused
+            args = tuple(args) + (([], []) if name == 'dump' else ([],))
         if tape:
             self.lines.append(f'{m} tape {_impl.fmt_arg(tape)}')
             self.expect.append(None)
